@@ -18,7 +18,7 @@ from . import c07_epy
 
 HEADER = '''from __future__ import annotations
 import cohdl
-from cohdl import Bit, BitVector, Unsigned, Port, Signal, Variable, Null, std
+from cohdl import Bit, BitVector, Unsigned, Port, Signal, Variable, Null, std, vhdl
 
 
 class Sub(cohdl.Entity):
@@ -29,6 +29,18 @@ class Sub(cohdl.Entity):
         @std.concurrent
         def logic():
             self.o <<= ~self.i
+
+
+class Sub2(cohdl.Entity):
+    i = Port.input(BitVector[4])
+    o1 = Port.output(BitVector[{W1}])
+    o2 = Port.output(BitVector[{W2}])
+
+    def architecture(self):
+        @std.concurrent
+        def logic():
+            self.o1 <<= self.i[{W1}-1:0]
+            self.o2 <<= self.i[{W2}-1:0]
 
 '''
 
@@ -48,7 +60,7 @@ def program(site1, part1, site2, part2, obj):
         else:
             tgt, src = PARTS[part]
             body[site].append(f"{tgt.format(t=t)} <<= {src}")
-    lines = [HEADER, "class E(cohdl.Entity):", "    clk = Port.input(Bit)", "    src = Port.input(BitVector[4])", "    pin = Port.input(BitVector[4])",
+    lines = [XHEAD, "class E(cohdl.Entity):", "    clk = Port.input(Bit)", "    src = Port.input(BitVector[4])", "    pin = Port.input(BitVector[4])",
              "    q = Port.output(BitVector[4])", "    r = Port.output(BitVector[4])", "    def architecture(self):",
              "        sig = Signal[BitVector[4]](name='sig')",
              "        std.concurrent_assign(self.r, sig)" if obj == "signal" else "        std.concurrent_assign(self.r, self.src)"]
@@ -71,6 +83,79 @@ def expected(site1, part1, site2, part2, obj):
     if site1 == "inst":
         return "reject"  # two instance outputs on one signal
     return "accept"
+
+
+# ---- further writer kinds: push assignments in core contexts (no reset_pushed prologue), always-expressions,
+# inline VHDL (direct and nested snippet), two outputs of ONE instance
+XHEAD = HEADER.replace("{W1}", "2").replace("{W2}", "2")
+WIDTH = {"whole": 4, "low": 2, "high": 2, "bit": 1}
+
+
+def _x_entity(decls, body):
+    return "\n".join([XHEAD, "class E(cohdl.Entity):", "    clk = Port.input(Bit)", "    src = Port.input(BitVector[4])", "    pin = Port.input(BitVector[4])",
+                      "    q = Port.output(BitVector[4], default=Null)", "    r = Port.output(BitVector[4])", "    def architecture(self):",
+                      "        sig = Signal[BitVector[4]](Null, name='sig')"] + ["        " + l for l in decls + body]) + "\n"
+
+
+def _writer(kind, n, tgt, src):
+    """lines of one writer context of the given kind assigning tgt from src"""
+    if kind == "core-push":
+        return ["@cohdl.sequential_context", f"def w{n}():", "    nonlocal sig", "    if cohdl.rising_edge(self.clk):", f"        {tgt} ^= {src}"]
+    if kind == "std-push":
+        return ["@std.sequential(std.Clock(self.clk))", f"def w{n}():", "    nonlocal sig", f"    {tgt} ^= {src}"]
+    if kind == "std-next":
+        return ["@std.sequential(std.Clock(self.clk))", f"def w{n}():", "    nonlocal sig", f"    {tgt} <<= {src}"]
+    if kind == "conc":
+        return ["@std.concurrent", f"def w{n}():", "    nonlocal sig", f"    {tgt} <<= {src}"]
+    if kind == "inline":
+        return ["@std.concurrent", f"def w{n}():", f'    f"{{vhdl:{{{tgt}}} <= {{{src}!r}};}}"']
+    if kind == "inline-nested":
+        return [f"def stmt{n}(target, source):", '    return f"{vhdl:{target} <= {source!r};}"',
+                "@std.concurrent", f"def w{n}():", f"    st = stmt{n}({tgt}, {src})", '    f"{vhdl:{st}}"']
+    if kind == "always":
+        # always-expression of a sequential context that itself does not touch the target
+        return [f"def aw{n}():", "    nonlocal sig", f"    {tgt} <<= {src}", "@std.sequential(std.Clock(self.clk))", f"def w{n}():", f"    cohdl.always(aw{n}())"]
+    raise AssertionError(kind)
+
+
+def extra_programs():
+    """(key, source, expected)"""
+    out = []
+    kinds = ["core-push", "std-push", "std-next", "conc", "inline", "inline-nested", "always"]
+    for obj, t in (("signal", "sig"), ("outport", "self.q")):
+        use = ["std.concurrent_assign(self.r[3:1], sig[3:1])"] if obj == "signal" else ["std.concurrent_assign(self.r[3:1], self.src[3:1])"]
+        for k1, k2 in itertools.combinations_with_replacement(kinds, 2):
+            for p1, p2 in (("whole", "whole"), ("low", "high")):
+                if "inline" in k1 + k2 and p1 != "whole":
+                    continue
+                t1, s1 = PARTS[p1]
+                t2, s2 = PARTS[p2]
+                w1 = _writer(k1, 1, t1.format(t=t), s1)
+                w2 = _writer(k2, 2, t2.format(t=t), s2.replace("src", "pin"))
+                out.append((f"x|{k1}:{p1}+{k2}:{p2}->{obj}", _x_entity([], use + w1 + w2), "reject"))
+            # single writer of each kind: accepted, one driver
+        for k in kinds:
+            out.append((f"x|{k}:whole->{obj}", _x_entity([], use + _writer(k, 1, t, "self.src")), "accept"))
+    # the same object written in a process and in that process's own always-expression
+    out.append(("x|always+own-body->signal", _x_entity([], ["def aw():", "    nonlocal sig", "    sig <<= self.pin", "@std.sequential(std.Clock(self.clk))", "def w():", "    nonlocal sig",
+                                                       "    sig <<= self.src", "    cohdl.always(aw())", "    self.q <<= sig"]), "reject"))
+    out.append(("x|always+own-body-slices->signal", _x_entity([], ["def aw():", "    nonlocal sig", "    sig[1:0] <<= self.pin[1:0]", "@std.sequential(std.Clock(self.clk))", "def w():", "    nonlocal sig",
+                                                              "    sig[3:2] <<= self.src[3:2]", "    cohdl.always(aw())", "    self.q <<= sig"]), "reject"))
+    out.append(("x|variable-read-in-own-always", _x_entity(["v = Variable[BitVector[4]](name='v')"], ["@std.sequential(std.Clock(self.clk))", "def w():", "    nonlocal v", "    v @= self.src",
+                                                                                                    "    self.q <<= cohdl.always(v & self.pin)"]), "reject"))
+    out.append(("x|always-reads-signal-written-in-body", _x_entity([], ["@std.sequential(std.Clock(self.clk))", "def w():", "    nonlocal sig", "    sig <<= self.src",
+                                                                   "    self.q <<= cohdl.always(sig & self.pin)"]), "accept"))
+    # two outputs of one instance
+    for (a1, a2, exp, tag) in (("sig[1:0]", "sig[3:2]", "reject", "disjoint-slices-same-root"), ("sig[1:0]", "sig[2:1]", "reject", "overlapping-slices"),
+                               ("sig[1:0]", "sig[1:0]", "reject", "same-slice"), ("sig[1:0]", "self.q[1:0]", "accept", "different-objects")):
+        out.append((f"x|inst2-outputs:{tag}", _x_entity([], ["std.concurrent_assign(self.r, sig)", f"Sub2(i=self.src, o1={a1}, o2={a2})"] +
+                                                       (["@std.concurrent", "def fill():", "    self.q[3:2] <<= self.src[3:2]"] if False else [])), exp))
+    # instance output on an input port of the parent / on a signal also written by a context
+    out.append(("x|inst-output->inport", _x_entity([], ["Sub(i=self.src, o=self.pin)"]), "reject"))
+    out.append(("x|inst-output-slice->inport", _x_entity([], ["Sub2(i=self.src, o1=self.pin[1:0], o2=sig[1:0])"]), "reject"))
+    for k in kinds:
+        out.append((f"x|inst-output+{k}->signal", _x_entity([], ["Sub(i=self.src, o=sig)"] + _writer(k, 1, "sig", "self.pin")), "reject"))
+    return out
 
 
 VAR_PROGRAMS = [
@@ -99,7 +184,7 @@ VAR_PROGRAMS = [
 
 
 def var_program(lines):
-    return "\n".join([HEADER, "class E(cohdl.Entity):", "    clk = Port.input(Bit)", "    src = Port.input(BitVector[4])", "    pin = Port.input(BitVector[4])",
+    return "\n".join([XHEAD, "class E(cohdl.Entity):", "    clk = Port.input(Bit)", "    src = Port.input(BitVector[4])", "    pin = Port.input(BitVector[4])",
                       "    q = Port.output(BitVector[4])", "    r = Port.output(BitVector[4])", "    def architecture(self):"] + lines) + "\n"
 
 
@@ -140,6 +225,7 @@ def run(tier: str) -> int:
                     jobs.append((f"{s1}:{p1}+{s2}:{p2}->{obj}", program(s1, p1, s2, p2, obj), expected(s1, p1, s2, p2, obj)))
         for key, exp, lines in VAR_PROGRAMS:
             jobs.append((key, var_program(lines), exp))
+        jobs += extra_programs()
         for key, src, exp in jobs:
             try:
                 mod = wd.load(src, "c07")
